@@ -74,9 +74,10 @@ func startOf(ends []int, i int) int {
 }
 
 type CaseCut struct {
-	Type string `json:"type"`
-	V    *Value `json:"v"`
-	Cuts []int  `json:"cuts,omitempty"` // empty: every cut position 0..len-1
+	Type  string `json:"type"`
+	V     *Value `json:"v"`
+	Cuts  []int  `json:"cuts,omitempty"`  // empty: every cut position 0..len-1
+	Prior *Value `json:"prior,omitempty"` // if set: the receiver has decoded this other message before it is given the prefix
 }
 
 func oracleC11(c *CaseCut) *Failure {
@@ -91,20 +92,29 @@ func oracleC11(c *CaseCut) *Failure {
 			cuts[i] = i
 		}
 	}
-	obj := regByName[c.Type].New()
+	var priorEnc []byte
+	if c.Prior != nil {
+		priorEnc = Render(c.Prior, nil).Bytes
+	}
 	for _, k := range cuts {
 		if k < 0 || k >= len(enc) {
 			continue
 		}
 		buf := bytes.NewBuffer(enc[:k:k])
 		fresh := regByName[c.Type].New()
-		_ = obj
+		if priorEnc != nil {
+			_, _, _ = safely(func() error { return DecodeAny(fresh, bytes.NewBuffer(append([]byte{}, priorEnc...))) })
+		}
 		err, pan, _ := safely(func() error { return DecodeAny(fresh, buf) })
 		if pan != nil {
 			return failf("C11/"+c.Type+"/panic", "Decode panicked on the first %d of %d bytes: %v", k, len(enc), pan)
 		}
 		if err == nil {
-			return failf("C11/"+c.Type+"/accepted-prefix", "Decode reported success on the first %d of %d bytes of a valid encoding (%s)", k, len(enc), spanAt(c.V, k))
+			used := ""
+			if c.Prior != nil {
+				used = " into a receiver that had decoded another message before"
+			}
+			return failf("C11/"+c.Type+"/accepted-prefix", "Decode reported success on the first %d of %d bytes of a valid encoding%s (%s)", k, len(enc), used, spanAt(c.V, k))
 		}
 	}
 	return nil
@@ -255,6 +265,11 @@ func TestC11(t *testing.T) {
 				o.BigProb, o.MaxList = 50, 1500
 				v, _ := GenValue(rt, tn, o)
 				c := &CaseCut{Type: tn, V: v}
+				if hasVariableParts(tn) && rapid.IntRange(0, 2).Draw(rt, "used") == 0 {
+					po := GenOpts{Mode: Canonical, MaxList: 40}
+					c.Prior, _ = GenValue(rt, tn, po)
+					Col.Class("values-decoded-into-a-used-receiver", 1)
+				}
 				r := Render(v, &RenderOpts{Spans: true})
 				n := len(r.Bytes)
 				if n > 4096 {
